@@ -92,6 +92,22 @@ def file_trees(res, vh, exe, rng):
             want_line = len(main) + len(tail_main)
         files = {r + "/main.asm": "\n".join(main + tail_main) + "\n", r + "/sub/f.inc": "\n".join(inc + tail_inc) + "\n", r + "/sub/g.inc": "\n".join(deep) + "\n"}
         cases.append((dict(cwd=r, main="main.asm", paths=[], dirs=[r, r + "/sub"], files=files, missing=None), fault, want_line, list(msgs)))
+    # the same directive assembled more than once is reported as many times: a file included twice in a row, a message that has the
+    # same kind, text and line number in the including and in the included file
+    for i, kind in enumerate(("message", "warning")):
+        w = "info" if kind == "message" else "warning"
+        r = "%s/r%d" % (base, i)
+        cases.append((dict(cwd=r, main="main.asm", paths=[], dirs=[r], missing=None,
+                           files={r + "/main.asm": ' nop\n.include "twice.inc"\n.include "twice.inc"\n nop\n.include "twice.inc"\n', r + "/twice.inc": '.%s "again"\n nop\n' % kind}),
+                      None, None, [(w, "again")] * 3))
+        r = "%s/s%d" % (base, i)
+        cases.append((dict(cwd=r, main="main.asm", paths=[], dirs=[r], missing=None,
+                           files={r + "/main.asm": '.include "a.inc"\n.%s "same"\n nop\n' % kind, r + "/a.inc": '\n.%s "same"\n' % kind}),
+                      None, None, [(w, "same")] * 2))
+        r = "%s/q%d" % (base, i)
+        cases.append((dict(cwd=r, main="main.asm", paths=[], dirs=[r], missing=None,
+                           files={r + "/main.asm": '.%s "same"\n.include "a.inc"\n nop\n' % kind, r + "/a.inc": '.%s "same"\n.%s "same"\n' % (kind, kind)}),
+                      None, None, [(w, "same")] * 3))
     try:
         rows = fsrun.run_cases(vh, exe, [c[0] for c in cases])
     finally:
@@ -184,8 +200,22 @@ def run(res):
         ls = ["  nop"] + pad[1:] + ['.message "late %d"' % at, '.warning "later"', "  nop"]
         mcases.append(("\n".join(ls) + "\n", "\n".join(ls[:at - 1 + 1 - 1] + ["", ""] + ["  nop"]) + "\n",
                        [("info", "late %d" % at, at), ("warning", "later", at + 1)]))
+    # a message directive in a macro body is assembled at every call: as many entries as calls, in call order
+    rcases = []
+    for kind in ("message", "warning"):
+        w = "info" if kind == "message" else "warning"
+        for calls in (1, 2, 3, 7):
+            rcases.append(('.macro note\n.%s "again"\n.endm\n' % kind + " note\n" * calls + " nop\n", [(w, "again")] * calls))
+            rcases.append(('.macro note\n.%s "again"\n.endm\n' % kind + " note\n nop\n" * calls, [(w, "again")] * calls))
+            rcases.append(('.macro note\n.%s "n @0"\n.endm\n' % kind + "".join(" note %d\n" % (i % 2) for i in range(calls)), [(w, "n %d" % (i % 2)) for i in range(calls)]))
+            rcases.append(('.macro inner\n.%s "deep"\n.endm\n.macro outer\n inner\n inner\n.endm\n' % kind + " outer\n" * calls, [(w, "deep")] * (2 * calls)))
     file_trees(res, vh, exe, rng)
-    obs = P.correspond(res, vh, exe, [c[0] for c in cases] + [m[0] for m in mcases] + [m[1] for m in mcases], "single-fault and message programs")
+    obs = P.correspond(res, vh, exe, [c[0] for c in cases] + [m[0] for m in mcases] + [m[1] for m in mcases] + [c[0] for c in rcases], "single-fault and message programs")
+    for text, want in rcases:
+        a = progrun.parse_obs(obs[text][0])
+        got = [(m.split(":")[0], m.split(": ", 1)[1].rsplit(" in line", 1)[0]) for m in a.get("msgs", [])] if a["kind"] == "OK" else None
+        if got != want:
+            P.fail(res, "builder::build_str", text, "one entry per assembled message directive, in order: %r" % want, obs[text][0][:200], "messages-repeated")
     dist = {}
     valid_ok = {}
     for text, kind, want, v in cases:
@@ -217,7 +247,7 @@ def run(res):
                 "message list equals the assembled message lines in source order with their own line numbers, and images equal those of "
                 "the program with the message lines blanked" % len(FAULTS))
     res.samples = [dict(source=c[0][-200:], kind=c[1], expected_line=c[2], observed=obs[c[0]][0][:60]) for c in cases[1:4]]
-    res.assume = ["messages inside macro bodies are outside the property's quantifier (DESIGN.md C15)"]
+    res.assume = ["the line number reported for a message inside a macro body is outside the property's quantifier (DESIGN.md C15): for those only kind, text, count and order are demanded"]
 
 
 match_known = P.match_known
